@@ -10,7 +10,8 @@ import contextlib
 
 VERIF_ROOT = os.path.dirname(os.path.dirname(os.path.abspath(__file__)))
 REPO = os.path.abspath(os.environ.get("VERIF_REPO", "/repo"))
-WORK = os.path.join(VERIF_ROOT, ".work")
+# scratch root: every run of a check gets its own (set by the parent process of the harness), so that concurrent runs do not disturb each other
+WORK = os.environ.get("VERIF_WORK") or os.path.join(VERIF_ROOT, ".work")
 
 
 def setup_path():
